@@ -8,7 +8,7 @@
       "exp":{"valid":..,"empty":..,"ncross":..,"nodd":..,"ntouch":..,"region":[..]},      (as exported by TLC)
       "rings":[{"pts":[[x,y],..],"inn":[[[x,y],..],..]},..],                       (the rings that were observed)
       "runs":[{"entry":"rel"|"way","mgr":b,"pr":b,"ne":b,"ret":b,"area":b,"st":{..},"rep":{..}},..]}   (by which runs)
-     (tiled cases additionally carry "tile":{"n":N,"dx":DX}, see JudgeTiled)
+     (tiled cases additionally carry "tile":{"n":N,"dx":G,"ntouch":T}, see JudgeTiled)
 
    TLC evaluates AreaGrid!Judge on every line: verdict, validity of every ring, orientation, nesting, region of the
    multipolygon = even-odd fill of the input, problem counts.  Consecutive lines with the same "grp" are cases over
@@ -16,7 +16,7 @@
    identical ("invariance").  The names of the violated requirements are printed per line as
    <<"CASE", "{\"i\":..,\"id\":..,\"fails\":[..]}">> and collected by checks/C10.py; an empty list = accepted.
 
-   The spec is a counter over the lines in two levels (block, then line) only so that TLC's workers share the lines;
+   The spec is a counter over the lines (parallelism comes from running several TLC processes on separate files);
    the variables of the case builder of AreaGrid are carried along unchanged. *)
 EXTENDS AreaGrid, IOUtils
 
@@ -24,28 +24,69 @@ Log == ndJsonDeserialize(IOEnv.TRACE)
 N == Len(Log)
 TraceG == Log[1].G
 
-VARIABLES phase, idx
-tvars == <<vars, phase, idx>>
+VARIABLE i
+tvars == <<vars, i>>
 
 SeqSet(s) == {s[k] : k \in 1..Len(s)}
 ExpOf(r) == [valid |-> r.exp.valid, empty |-> r.exp.empty, ncross |-> r.exp.ncross, nodd |-> r.exp.nodd,
              ntouch |-> r.exp.ntouch, region |-> SeqSet(r.exp.region)]
 
+(* ---- tiled cases ("tile":{"n":N,"dx":G,"ntouch":T}): N copies of the motif given by "ways", copy k shifted by k*G
+   in x (AreaGrid!TileOK, TileTheorem).  The chain is a valid arrangement with T touching points, so it must be
+   assembled; every ring segment lies in exactly one copy, the ring segments in copy k are the motif's segments
+   shifted, and the region of the multipolygon on the sample columns of copy k is the motif's region shifted
+   (vertical rays: only segments of copy k can be hit).  Closedness, length, repeated points and orientation are
+   evaluated on the whole rings; conflicts only between segments of the same or of adjacent copies. *)
+JudgeTiled(r) ==
+  LET n == r.tile.n
+      dx == r.tile.dx
+      rgs == r.rings
+      ex == ExpOf(r)
+      motif == Segments(r.ways)
+      ids == RingIds(rgs)
+      rs == RingSegSeq(rgs)
+      m == Len(rs)
+      outers == {x \in ids : x[2] = 0}
+      inners == ids \ outers
+      tl(j) == rs[j].s[1][1] \div dx                         \* copy in which ring segment j lies (s[1] is its left end)
+      occIn == [k \in 0..(n - 1) |-> {j \in 1..m : tl(j) = k}]
+      segsIn(k) == {ShiftSeg(rs[j].s, -(k * dx)) : j \in occIn[k]}
+      ringsIn(k) == {rs[j].r : j \in occIn[k]}
+      fillIn(k, x) == {I \in SampleIdx(k * dx, (k + 1) * dx) :
+                          Cardinality({j \in occIn[k] : rs[j].r = x /\ HitsY(rs[j].s, SP(I))}) % 2 = 1}
+      mpIn(k) == UNION {fillIn(k, o) \ UNION {fillIn(k, x) : x \in {y \in inners : y[1] = o[1]}} : o \in outers \cap ringsIn(k)}
+      regionShift(k) == {<<I[1] - 2 * k * dx, I[2]>> : I \in mpIn(k)}
+      runFails(run) == {f \in {"not_assembled", "count_touch", "count_problems"} :
+                          CASE f = "not_assembled" -> ~(run.ret /\ run.area)
+                            [] f = "count_touch" -> run.st.touching_rings # r.tile.ntouch \/ (run.pr /\ run.rep.touching_ring # r.tile.ntouch)
+                            [] f = "count_problems" -> run.st.intersections # 0 \/ run.st.open_rings # 0}
+  IN IF rgs = <<>> THEN {"not_assembled"}
+     ELSE {f \in {"closed", "short", "duppoint", "ringcross", "orient", "inside", "region", "segset"} :
+            CASE f = "closed" -> \E x \in ids : LET p == RingPts(rgs, x) IN Len(p) < 1 \/ p[1] # p[Len(p)]
+              [] f = "short" -> \E x \in ids : Len(RingPts(rgs, x)) < 4
+              [] f = "duppoint" -> \E x \in ids : LET p == RingPts(rgs, x) IN \E k \in 1..(Len(p) - 1) : p[k] = p[k + 1]
+              [] f = "ringcross" -> \E k \in 0..(n - 1) : \E j1 \in occIn[k] :
+                                      \E j2 \in occIn[k] \cup (IF k + 1 < n THEN occIn[k + 1] ELSE {}) :
+                                        j1 # j2 /\ Conflict(rs[j1].s, rs[j2].s)
+              [] f = "orient" -> \E x \in ids : IF x[2] = 0 THEN Area2(RingPts(rgs, x)) <= 0 ELSE Area2(RingPts(rgs, x)) >= 0
+              [] f = "inside" -> \E k \in 0..(n - 1) : \E x \in inners \cap ringsIn(k) : ~(fillIn(k, x) \subseteq fillIn(k, <<x[1], 0>>))
+              [] f = "region" -> \E k \in 0..(n - 1) : {IdxNum(I) : I \in regionShift(k)} # ex.region
+              [] f = "segset" -> \/ \E j \in 1..m : tl(j) < 0 \/ tl(j) >= n
+                                 \/ \E k \in 0..(n - 1) : segsIn(k) # motif}
+          \cup UNION {runFails(r.runs[k]) : k \in 1..Len(r.runs)}
+
 (* ---- one line *)
-Verdict(i) ==
-  LET r == Log[i]
-      base == Judge(r.ways, r.roles, ExpOf(r), r.rings, r.runs, AllSamples)
-      inv == IF /\ i > 1 /\ Log[i - 1].grp = r.grp /\ r.exp.valid /\ r.rings # <<>> /\ Log[i - 1].rings # <<>>
-                /\ Canon(r.rings) # Canon(Log[i - 1].rings)
+Verdict(n) ==
+  LET r == Log[n]
+      base == IF "tile" \in DOMAIN r THEN JudgeTiled(r) ELSE Judge(r.ways, r.roles, ExpOf(r), r.rings, r.runs, AllSamples)
+      inv == IF /\ n > 1 /\ "tile" \notin DOMAIN r /\ Log[n - 1].grp = r.grp /\ r.exp.valid /\ r.rings # <<>> /\ Log[n - 1].rings # <<>>
+                /\ Canon(r.rings) # Canon(Log[n - 1].rings)
              THEN {"invariance"} ELSE {}
   IN base \cup inv
 
-NBlocks == IF N < 24 THEN N ELSE 24
-TraceInit == Init /\ phase = 0 /\ idx = 0
-TraceNext == /\ UNCHANGED vars
-             /\ \/ phase = 0 /\ phase' = 1 /\ idx' \in 1..NBlocks
-                \/ phase = 1 /\ phase' = 2 /\ idx' \in {i \in 1..N : i % NBlocks = idx % NBlocks}
+TraceInit == Init /\ i = 1
+TraceNext == i < N /\ i' = i + 1 /\ UNCHANGED vars
 TraceSpec == TraceInit /\ [][TraceNext]_tvars
 
-Emit == phase = 2 => PrintT(<<"CASE", ToJson([i |-> idx, id |-> Log[idx].id, fails |-> Verdict(idx)])>>)
+Emit == PrintT(<<"CASE", ToJson([i |-> i, id |-> Log[i].id, fails |-> Verdict(i)])>>)
 =============================================================================
